@@ -251,10 +251,10 @@ func ToIRIs(it Item) (*IRIs, error) {
 		iris := i.IRIs()
 		return &iris, nil
 	case *ItemCollection:
-		iris := make(IRIs, len(*i))
-		for j, ob := range *i {
-			iris[j] = ob.GetLink()
+		if i == nil {
+			return nil, ErrorInvalidType[IRIs](it)
 		}
+		iris := i.IRIs()
 		return &iris, nil
 	default:
 		return reflectItemToType[IRIs](it)
